@@ -74,6 +74,10 @@ func (r NodeRequest) Verify(sig string) error {
 	if err != nil {
 		return err
 	}
+	if len(sigbytes) < 64 {
+		// Too short to hold [R || S]: not a signature of anything.
+		return ErrBadSignature
+	}
 	// crypto.Sign produces a signature in the form [R || S || V] (65 bytes)
 	// where V is 0 or 1 and crypto.VerifySignature wants [R || S] (64 bytes).
 	// ¯\_(ツ)_/¯
